@@ -939,7 +939,7 @@ fn confirm_single(seed: u64, index: u64, work: &Path) -> (bool, String) {
 
 pub fn run_c07(thorough: bool, seed: u64, shards: usize) -> (Report, String, Value) {
     let n: u64 = if thorough { 64_000_000 } else { 1_600_000 };
-    let work = Path::new(crate::report::VERIF).join("work").join(format!("c07-{}", std::process::id()));
+    let work = crate::report::out_dir().join("work").join(format!("c07-{}", std::process::id()));
     let _ = std::fs::create_dir_all(&work);
     let mut rep = Report::new();
     let per = n / shards as u64;
